@@ -17,13 +17,24 @@ thread_local! {
     pub static CFG_CB: RefCell<Option<Box<dyn FnMut(&str, usize)>>> = const { RefCell::new(None) };
 }
 
+thread_local! {
+    /// feature bits the driver accepted, as the device saw them (any transport)
+    pub static NEGOTIATED: std::cell::Cell<u64> = const { std::cell::Cell::new(0) };
+}
+pub fn set_negotiated(n: u64) {
+    NEGOTIATED.with(|c| c.set(n));
+}
+pub fn negotiated() -> u64 {
+    NEGOTIATED.with(|c| c.get())
+}
+
 pub fn set_notify_cb(cb: Option<Box<dyn FnMut(u16)>>) {
     NOTIFY_CB.with(|c| *c.borrow_mut() = cb);
 }
 pub fn set_cfg_cb(cb: Option<Box<dyn FnMut(&str, usize)>>) {
     CFG_CB.with(|c| *c.borrow_mut() = cb);
 }
-fn call_notify(q: u16) {
+pub fn call_notify_cb(q: u16) {
     let cb = NOTIFY_CB.with(|c| c.borrow_mut().take());
     if let Some(mut cb) = cb {
         cb(q);
@@ -35,7 +46,7 @@ fn call_notify(q: u16) {
         });
     }
 }
-fn call_cfg(kind: &str, off: usize) {
+pub fn call_cfg_cb(kind: &str, off: usize) {
     let cb = CFG_CB.with(|c| c.borrow_mut().take());
     if let Some(mut cb) = cb {
         cb(kind, off);
@@ -113,6 +124,7 @@ impl Transport for ModelTransport {
     }
     fn write_driver_features(&mut self, driver_features: u64) {
         with_t(|t| t.negotiated = driver_features);
+        set_negotiated(driver_features);
         tev(json!({"e":"T","op":"write_features","v":hex(driver_features),"vl":limbs(driver_features,4)}));
     }
     fn max_queue_size(&mut self, queue: u16) -> u32 {
@@ -124,7 +136,7 @@ impl Transport for ModelTransport {
         let st = with_t(|t| t.status);
         tev(json!({"e":"T","op":"notify","q":queue,"status":st}));
         with_world(|w| w.qev(queue, json!({"e":"Notify"})));
-        call_notify(queue);
+        call_notify_cb(queue);
     }
     fn get_status(&self) -> DeviceStatus {
         let v = with_t(|t| t.status);
@@ -192,13 +204,13 @@ impl Transport for ModelTransport {
         InterruptStatus::from_bits_retain(v)
     }
     fn read_config_generation(&self) -> u32 {
-        call_cfg("gen", 0);
+        call_cfg_cb("gen", 0);
         let v = with_t(|t| t.config_gen);
         tev(json!({"e":"T","op":"cfg_gen","v":v}));
         v
     }
     fn read_config_space<T: FromBytes + IntoBytes>(&self, offset: usize) -> Result<T> {
-        call_cfg("read", offset);
+        call_cfg_cb("read", offset);
         let size = size_of::<T>();
         let r = with_t(|t| {
             if t.config.is_empty() {
